@@ -266,6 +266,13 @@ void universe_generate(model_t *m, vrng_t *r, int nkeys) {
         n = 128 + vr_uniform(r, 173);
         for (j = 0; j < n; j++) k[j] = (uint8_t)vr_next(r);
         break;
+      case 7: case 8: case 9:
+        if (m->cmp_kind == CMP_NOCASE) { /* alphabetic keys in mixed case: several spellings of one key collapse */
+          n = 1 + vr_uniform(r, 6);
+          for (j = 0; j < n; j++) k[j] = (uint8_t)((vr_uniform(r, 2) ? 'a' : 'A') + vr_uniform(r, 4));
+          break;
+        }
+        /* fall through */
       default: /* small printable keys with shared prefixes */
         n = (size_t)snprintf((char *)k, sizeof(k), "k%03u", vr_uniform(r, 600));
         if (vr_uniform(r, 4) == 0) k[n++] = (uint8_t)vr_uniform(r, 256);
